@@ -339,6 +339,47 @@ def _segments(node, inl):
     return segs
 
 
+
+def _native_provenance(fn):
+    """native leg sequence name -> meta leg sequence name it was unpacked from"""
+    prov = {}
+    for n in A.walk_local(fn, include_self=False):
+        if not (isinstance(n, ast.Assign) and isinstance(n.value, ast.Call)):
+            continue
+        cn = A.call_name(n.value)
+        tg = n.targets[0]
+        if cn == "_unpack_axes" and isinstance(tg, (ast.Tuple, ast.List)):
+            metas = n.value.args[1:]
+            for t, m in zip(tg.elts, metas):
+                if isinstance(t, ast.Name):
+                    prov[t.id] = A.text(m)
+        elif cn == "_unpack_trans_test_axes_pair" and isinstance(tg, ast.Tuple) and len(tg.elts) == 2 and isinstance(tg.elts[1], ast.Tuple):
+            ax = A.kwarg(n.value, "axes")
+            if isinstance(ax, ast.Tuple):
+                for t, m in zip(tg.elts[1].elts, ax.elts):
+                    if isinstance(t, ast.Name):
+                        prov[t.id] = A.text(m)
+    return prov
+
+
+def _excl(seq):
+    import re
+    m = re.match(r"^(?:range\(\w+\.ndim\)|\w+\.trans) if (\w+) not in (\w+)$", seq)
+    return m.group(2) if m else seq
+
+
+def _seq_corresponds(mseq, nseq, prov):
+    import re
+    if re.fullmatch(r"\w+", mseq) and re.fullmatch(r"\w+", nseq):
+        return prov.get(nseq) == mseq if nseq in prov else None
+    mm = re.match(r"^range\((\w+)\.ndim\) if (\w+) not in (\w+)$", mseq)
+    nn = re.match(r"^(\w+)\.trans if (\w+) not in (\w+)$", nseq)
+    if mm and nn:
+        if mm.group(1) != nn.group(1):
+            return False
+        return prov.get(nn.group(3)) == mm.group(3) if nn.group(3) in prov else None
+    return None
+
 def run_L3(chk, rule="L3"):
     """signature, hard-fusion history and meta-fusion of a result are assembled from the same leg sequence"""
     prog = chk.prog
@@ -347,7 +388,7 @@ def run_L3(chk, rule="L3"):
              ("yastn.tensor.linalg", "svd", [("Us", "Uhfs", "Umfs"), ("Vs", "Vhfs", "Vmfs")]),
              ("yastn.tensor.linalg", "qr", [("Qs", "Qhfs", "Qmfs"), ("Rs", "Rhfs", "Rmfs")]),
              ("yastn.tensor.linalg", "eigh", [("Us", "Uhfs", "Umfs")]),
-             ("yastn.tensor.linalg", "eig", [("Us", "Uhfs", "Umfs")]),
+             ("yastn.tensor.linalg", "eig", [("Us", "Uhfs", "Umfs"), ("Vs", "Vhfs", "Vmfs")]),
              ]
     # trace: the fusion histories of the result are taken over the very sequence `out` that _meta_trace receives for the signature
     tr = prog.func("yastn.tensor._contractions", "trace")
@@ -414,6 +455,28 @@ def run_L3(chk, rule="L3"):
                 chk.verdict(rule, (f, mv), f"{name}: {mname} ~ {sname}", True if ok3 else False,
                             f"{name}(): meta-fusion `{mname}` is not assembled in the same tensor/segment order as `{sname}`",
                             {"mfs": str(ms), "s": str(ss)})
+                # each meta segment runs over the meta-leg sequence from which the native sequence of the matching
+                # signature segment was unpacked (provenance through _unpack_axes / _unpack_trans_test_axes_pair)
+                if ok3:
+                    prov = _native_provenance(f.node)
+                    for m_, s_ in zip(ms, ss):
+                        if m_[0] != "mfs":
+                            continue
+                        nseq = s_[2]
+                        if nseq not in prov and nseq in b:
+                            dv = [v for st_, v, k in b[nseq] if k == "assign" and v is not None]
+                            if len(dv) == 1 and isinstance(dv[0], ast.Call) and A.call_name(dv[0]) == "tuple" and dv[0].args \
+                                    and isinstance(dv[0].args[0], ast.GeneratorExp) and A.text(dv[0].args[0].elt) == A.text(dv[0].args[0].generators[0].target):
+                                g0 = dv[0].args[0].generators[0]
+                                nseq = A.text(g0.iter) + (" if " + " if ".join(A.text(c) for c in g0.ifs) if g0.ifs else "")
+                        r = _seq_corresponds(m_[2], nseq, prov)
+                        if r is None:
+                            raise AnalysisError(f"{name}: cannot relate the meta sequence `{m_[2]}` of {mname} to the native sequence `{s_[2]}` of {sname}")
+                        chk.verdict(rule, (f, mv), f"{name}: {mname} over `{m_[2]}` <-> {sname} over `{s_[2]}`", True if r else False,
+                                    f"{name}(): the meta-fusion trees in `{mname}` are collected over `{m_[2]}` but the native legs of that part of the "
+                                    f"result (`{sname}`, fusion histories) over `{s_[2]}`, which was unpacked from `{prov.get(_excl(s_[2]), '?')}`: the factor "
+                                    f"comes back with the meta-fusion structure of the other group of legs (wrong rank / grouping whenever the two "
+                                    f"groups are meta-fused differently)", {"provenance": prov})
 
 
 # ------------------------------------------------------------------------- L2
